@@ -84,7 +84,8 @@ struct AdfList * adfGetDelEnt ( struct AdfVolume * const vol )
     list = head = NULL;
     block = NULL;
     delEnt = TRUE;
-    for(i=vol->firstBlock + 2 ; i<=vol->lastBlock; i++) {
+    /* block numbers are relative to the volume, like everywhere else in the library */
+    for ( i = 2 ; i <= vol->lastBlock - vol->firstBlock ; i++ ) {
         if (adfIsBlockFree(vol, i)) {
             if (delEnt) {
                 block = (struct GenBlock*)malloc(sizeof(struct GenBlock));
@@ -96,6 +97,7 @@ struct AdfList * adfGetDelEnt ( struct AdfVolume * const vol )
             }
 
             if ( adfReadGenBlock ( vol, i, block ) != RC_OK ) {
+                free ( block );     /* the block being filled is not in the list */
                 adfFreeDelList ( head );
                 return NULL;
             }
@@ -109,13 +111,17 @@ struct AdfList * adfGetDelEnt ( struct AdfVolume * const vol )
                 else
                     list = newCell(list, (void*)block);
             }
+            else {
+                /* not a deleted entry: the block is used again for the next read, its name (links) is not kept */
+                free ( block->name );
+                block->name = NULL;
+            }
         }
     }
 
-    if (block!=NULL && list!=NULL && block!=list->content) {
+    /* the last block read was not a deleted entry: it is in no list */
+    if ( block != NULL && ! delEnt )
         free(block);
-/*        printf("%p\n",block);*/
-    }
     return head;
 }
 
